@@ -307,6 +307,20 @@ func c01Run(c *fw.Ctx) {
 			c01RunValue(c, resp.A(resp.A(a), b), "tree")
 		}
 	}
+	// (iv') line-type values of every length around the powers of two (line buffers)
+	for k := 6; k <= 16; k++ {
+		for d := -1; d <= 1; d++ {
+			L := 1<<k + d
+			if c.Quick() && k > 13 && d != 0 {
+				continue
+			}
+			pay := bytes.Repeat([]byte("line $1 *2 :3 "), L/14+1)[:L]
+			for _, kind := range []resp.Kind{resp.Status, resp.Error} {
+				c01RunValue(c, resp.Value{Kind: kind, Data: pay}, "line-length")
+				c01RunValue(c, resp.A(resp.Value{Kind: kind, Data: pay}, resp.I(1)), "line-length")
+			}
+		}
+	}
 	// (v') wide arrays: N copies of one element, N around every power of two and the
 	// parser's depth / size thresholds (anything counted per element shows here)
 	wide := map[int]bool{}
@@ -574,7 +588,7 @@ func init() {
 	fw.Register(&fw.Prop{
 		ID:    "C01",
 		Level: "exploration",
-		Rule:  "bounded-exhaustive value trees: line payloads len<=3 (thorough 5) over {a,0,-,+,:,$,*,SP,NUL,0xff}; bulk payloads len<=4 (thorough 6) over {a,CR,LF,NUL,$,*,+,:,-,0xff} + null; all 256 byte values in 4 shapes; bulk length sweep 0..65538 (quick: every length <=4096 and 2^k±2); wide arrays of N equal elements (7 element shapes incl. empty and nested arrays, N = 2^k-1, 2^k, 2^k+1 up to 4097 and 100..10000; thorough up to 100000), alone and nested behind a sibling; arrays arity<=3 depth<=2 over 8 leaves ∪ 73 depth-1 arrays, depth 3 arity<=2; constructors over the same strings, ints -70000..70000 ∪ ±10^k±1 ∪ ±2^k±1 ∪ min/max, floats sign × all 2047 finite exponents × 8 mantissa patterns (thorough: 164, every single-bit, prefix-ones and single-zero mantissa). Plus every ordered pair of 56 representative values (leaves, small arrays, bulk/array sizes around 2^k up to 65536): the encoding of the first and the message parsed from it are retained while the second is serialized/parsed and must be unchanged afterwards. Every case is distinct by construction and non-trivial (each exercises serialize+parse+reserialize against an independent codec).",
+		Rule:  "bounded-exhaustive value trees: line payloads len<=3 (thorough 5) over {a,0,-,+,:,$,*,SP,NUL,0xff}; bulk payloads len<=4 (thorough 6) over {a,CR,LF,NUL,$,*,+,:,-,0xff} + null; all 256 byte values in 4 shapes; status and error lines of length 2^k-1, 2^k, 2^k+1 (k=6..16), alone and in an array; bulk length sweep 0..65538 (quick: every length <=4096 and 2^k±2); wide arrays of N equal elements (7 element shapes incl. empty and nested arrays, N = 2^k-1, 2^k, 2^k+1 up to 4097 and 100..10000; thorough up to 100000), alone and nested behind a sibling; arrays arity<=3 depth<=2 over 8 leaves ∪ 73 depth-1 arrays, depth 3 arity<=2; constructors over the same strings, ints -70000..70000 ∪ ±10^k±1 ∪ ±2^k±1 ∪ min/max, floats sign × all 2047 finite exponents × 8 mantissa patterns (thorough: 164, every single-bit, prefix-ones and single-zero mantissa). Plus every ordered pair of 56 representative values (leaves, small arrays, bulk/array sizes around 2^k up to 65536): the encoding of the first and the message parsed from it are retained while the second is serialized/parsed and must be unchanged afterwards. Every case is distinct by construction and non-trivial (each exercises serialize+parse+reserialize against an independent codec).",
 		Assumptions: []string{
 			"the independent strict RESP2 codec in /verif/resp is the reference",
 			"null arrays are outside the property's value list and not generated",
